@@ -125,7 +125,7 @@ func (propC08) Gen(r *Rand) *Plan {
 
 			if r.Bool(0.05) {
 				// someone else customises a function collection of its own: remove an entry by position, by name, or clear it
-				tp.Ops = append(tp.Ops, Op{Op: "foreign", I: r.Intn(37), J: r.Intn(3), S: r.Pick(c08Names)})
+				tp.Ops = append(tp.Ops, Op{Op: "foreign", I: r.Intn(37), J: r.Intn(5), S: r.Pick(c08Names)})
 				continue
 			}
 			switch r.Weighted([]int{4, 3, 3, 4, 2, 8, 1}) {
@@ -229,6 +229,12 @@ func c08Run(p *Plan, x *Ctx, out *Outcome) {
 			calc := calculator.NewExpressionCalculator()
 			calc.SetVariantOperations(ops)
 			funcs := functions.NewDefaultFunctionCollection()
+			// a function only this task's collection has; additions to other collections must not show here
+			ownMarker := 1000 + ti
+			funcs.Add(functions.NewDelegatedFunction("Own", func(params []*variants.Variant, o variants.IVariantOperations) (*variants.Variant, error) {
+				return variants.VariantFromInteger(ownMarker), nil
+			}))
+			ownLen := funcs.Length() + 1 // with Boom, added next
 			boomK := 0 // selects what the delegate panics with (texts, errors, values that are awkward to report)
 			funcs.Add(functions.NewDelegatedFunction("Boom", func(params []*variants.Variant, o variants.IVariantOperations) (*variants.Variant, error) {
 				panic(PanicValue(boomK))
@@ -355,15 +361,25 @@ func c08Run(p *Plan, x *Ctx, out *Outcome) {
 							r.done = true
 						}()
 						other := functions.NewDefaultFunctionCollection()
-						switch o.J % 3 {
+						switch o.J % 5 {
 						case 0:
 							if other.Length() > 0 {
 								other.Remove(o.I % other.Length())
 							}
 						case 1:
 							other.RemoveByName(o.S)
-						default:
+						case 2:
 							other.Clear()
+						default:
+							// additions: one or two functions of its own, one of them under a name this task uses too
+							other.Add(functions.NewDelegatedFunction("Tag", func(params []*variants.Variant, o variants.IVariantOperations) (*variants.Variant, error) {
+								return variants.VariantFromInteger(-5), nil
+							}))
+							if o.J%5 == 4 {
+								other.Add(functions.NewDelegatedFunction("own", func(params []*variants.Variant, o variants.IVariantOperations) (*variants.Variant, error) {
+									return variants.VariantFromInteger(-6), nil
+								}))
+							}
 						}
 						// every default name must still be found in this task's collection and in a new one
 						r.found = true
@@ -373,6 +389,22 @@ func c08Run(p *Plan, x *Ctx, out *Outcome) {
 								r.found = false
 								r.extraErr = append(r.extraErr, fmt.Errorf("%s", n))
 							}
+						}
+						// ... and what this task added to its own collection is still there, still its own, and nothing else came in
+						if own := funcs.FindByName("Own"); own == nil {
+							r.found = false
+							r.extraErr = append(r.extraErr, fmt.Errorf("Own (added by this task) is gone"))
+						} else if v, err := own.Calculate(nil, ops); err != nil || v == nil || v.Type() != variants.Integer || v.AsInteger() != ownMarker {
+							r.found = false
+							r.extraErr = append(r.extraErr, fmt.Errorf("Own (added by this task) is now another function"))
+						}
+						if funcs.FindByName("Boom") == nil {
+							r.found = false
+							r.extraErr = append(r.extraErr, fmt.Errorf("Boom (added by this task) is gone"))
+						}
+						if funcs.FindByName("Tag") != nil || funcs.Length() != ownLen {
+							r.found = false
+							r.extraErr = append(r.extraErr, fmt.Errorf("a function added to another collection shows in this one (length %d, was %d)", funcs.Length(), ownLen))
 						}
 						r.res = variants.VariantFromInteger(fresh.Length())
 					}()
